@@ -193,3 +193,7 @@ def nontrivial(case, obs):
 
 
 shrink = c09.shrink
+
+LEVEL_TEXT += (' CLOUD/RAIN (Model/CloudRain.v): C08_cloudrain_read_write - reading a file of unambiguous size and writing what was presented (ncf2cloud_rain, hand-modelled '
+               'as c_write) reproduces the file word for word and the written file decodes to the content; region 21 = inherently ambiguous sizes '
+               '(C09_cloudrain_ambiguous_size_refuted). Cases: constructor CD8.')
